@@ -417,3 +417,38 @@ PROPERTIES["C14"] = {
     "bounds": {"builders": "as C17", "rules before conversion": "none or one of 6 option rules applied to every option"},
     "runs": [Run("veneers", ["./internal/zzverif/hveneers"], VENEERS_HARNESS, ["VerifC14ConverterMapping"], "internal/zzverif/hveneers", test_pkg_name="hveneers", needs_leaf=True)],
 }
+
+
+# ---------------------------------------------------------------- parser walkers (symbolic library structs)
+
+OPENAPI_HARNESS = _h(("internal/openapi/zz_verif_parser.go", "harness/popenapi/zz_verif_parser.go"))
+
+def _add_run(pid, run):
+    old = PROPERTIES[pid]["runs"]
+    if callable(old):
+        PROPERTIES[pid]["runs"] = (lambda o: (lambda ctx: list(o(ctx)) + [run]))(old)
+    else:
+        PROPERTIES[pid]["runs"] = list(old) + [run]
+
+_add_run("C03", Run("openapi_parser", ["./internal/openapi"], OPENAPI_HARNESS, ["VerifParserOpenAPI"], "internal/openapi", needs_leaf=True, repeat=400,
+                    allow_unreached=["C05: a reference of the IR parsed from an OpenAPI document does not resolve", "C05: the parser lost or invented a definition"]))
+
+JSONSCHEMA_PARSER_HARNESS = _h(("internal/jsonschema/zz_verif_c10.go", "harness/pjsonschema/zz_verif_c10.go"),
+                               ("internal/jsonschema/zz_verif_parser.go", "harness/pjsonschema/zz_verif_parser.go"))
+_C05_MSGS = ["C05: a reference of the IR parsed from an OpenAPI document does not resolve", "C05: the parser lost or invented a definition",
+             "C05: a reference of the IR parsed from a JSON Schema does not resolve"]
+_C03_MSGS = ["C03: the OpenAPI parser fails for one map iteration order and succeeds for another", "C03: the IR parsed from an OpenAPI document depends on map iteration order",
+             "C03: the JSON Schema parser fails for one map iteration order and succeeds for another", "C03: the IR parsed from a JSON Schema depends on map iteration order"]
+_C10_MSGS = [m for m in []]
+
+def _parser_runs(**kw):
+    return [Run("openapi_parser", ["./internal/openapi"], OPENAPI_HARNESS, ["VerifParserOpenAPI"], "internal/openapi", needs_leaf=True, repeat=400, **kw),
+            Run("jsonschema_walker", ["./internal/jsonschema"], JSONSCHEMA_PARSER_HARNESS, ["VerifParserJSONSchema"], "internal/jsonschema", needs_leaf=True, repeat=400, **kw)]
+
+# C03 got the OpenAPI run above; add the JSON Schema walker, and give C05 / C04 both
+PROPERTIES["C03"]["runs"] = [r for r in PROPERTIES["C03"]["runs"] if r.name != "openapi_parser"] + _parser_runs(judge="prefix:C03")
+_add_run("C05", _parser_runs(judge="prefix:C05")[0])
+_add_run("C05", _parser_runs(judge="prefix:C05")[1])
+_add_run("C04", _parser_runs(panics="violation", judge="panic")[0])
+_add_run("C04", _parser_runs(panics="violation", judge="panic")[1])
+# the C10 run loads the same package: it must carry the parser harness file too (one package, one set of files)
